@@ -28,6 +28,14 @@ def real_controller():
     return c
 
 
+def snapshot(a):
+    """what list / options / status / numprocesses would report"""
+    out = []
+    for w in a.watchers:
+        out.append((w.name, w._status, w.numprocesses, sorted(w.processes), repr(w.options())))
+    return (out, sorted(a._watchers_names))
+
+
 @register('circus.controller:Controller.dispatch')
 class Dispatch(object):
     def from_model(self, m):
@@ -41,17 +49,50 @@ class Dispatch(object):
                 b'{"command": "status", "id": 1, "properties": {"name": "zzz"}}',
                 b'{"command": "numwatchers", "id": null}', b'{"command": "list", "properties": 5, "id": 2}',
                 b'{"command": "set", "id": 4, "properties": {"name": "w1", "options": {"bogus": 1}}}',
-                b'{"command": "signal", "id": 9, "properties": {"name": "w1", "signum": "TERM!!"}}']
+                b'{"command": "signal", "id": 9, "properties": {"name": "w1", "signum": "TERM!!"}}',
+                b'{"command": "set", "id": 4, "properties": {"name": "w1", "options": {"working_dir": "/x", "bogus": 1}}}',
+                b'{"command": "set", "id": 4, "properties": {"name": "w1", "options": {"numprocesses": 2, "max_age": "x"}}}',
+                b'{"command": "set", "id": 4, "properties": {"name": "nope", "options": {"numprocesses": 2}}}',
+                b'{"command": "add", "id": 5, "properties": {"name": "W1", "cmd": "sleep 1"}}',
+                b'{"command": "add", "id": 5, "properties": {"name": "w9", "cmd": "sleep 1", "options": {"bogus": 2}}}',
+                b'{"command": "kill", "id": 6, "properties": {"name": "w1", "signum": "NOPE"}}',
+                b'{"command": "incr", "id": 6, "properties": {}}']
         for d in docs:
             yield {'msg': d.decode()}
 
     def run(self, inp):
         c = real_controller()
         obs = {}
+        calls = []
+
+        class Rec(object):
+            """records the order of validate / execute on the real command object"""
+            def __init__(self, cmd):
+                self._cmd = cmd
+
+            def __getattr__(self, n):
+                return getattr(self._cmd, n)
+
+            def validate(self, props):
+                try:
+                    r = self._cmd.validate(props)
+                except BaseException:
+                    calls.append('validate-refused')
+                    raise
+                calls.append('validate-ok')
+                return r
+
+            def execute(self, arbiter, props):
+                calls.append('execute')
+                return self._cmd.execute(arbiter, props)
+        c.commands = dict((k, Rec(v)) for k, v in c.commands.items())
+        before = snapshot(c.arbiter)
         try:
             c.dispatch((b'CID', inp['msg'].encode()))
         except BaseException as e:
             obs['raised'] = type(e).__name__
+        obs['calls'] = calls
+        obs['state_unchanged'] = before == snapshot(c.arbiter)
         frames = c.stream.frames
         replies = []
         for i in range(0, len(frames) - 1, 2):
@@ -85,6 +126,17 @@ class Dispatch(object):
         else:
             if n != 1 or not isinstance(obs['replies'][0], dict) or obs['replies'][0].get('id') != mid:
                 bad.add('post[one-reply]')
+        # C11
+        calls = obs.get('calls', [])
+        if calls.count('execute') > 1:
+            bad.add('post[execute-at-most-once]')
+        if 'execute' in calls and calls[:calls.index('execute')] != ['validate-ok']:
+            bad.add('callsite[validated-first]')
+        if 'execute' not in calls and not obs.get('state_unchanged', True):
+            bad.add('post[refused-before-execute-changes-nothing]')
+        known = isinstance(j, dict) and isinstance(j.get('command'), str)
+        if (badjson or not known) and 'execute' in calls:
+            bad.add('post[invalid-json-or-unknown-command-not-executed]')
         return bad
 
 
@@ -197,4 +249,57 @@ class HandleMessage(object):
             bad.add('post[0]')
         if len(inp['frames']) == 2 and not inp['frames'][1].strip() and obs['nframes'] != 2 and 'raised' not in obs:
             bad.add('post[0]')
+        return bad
+
+
+@register('circus.controller:Controller._dispatch_callback_future')
+class DispatchCallbackFuture(object):
+    """the done-callback of a waiting request, on completed real futures (plain tornado and TransformableFuture)"""
+    def from_model(self, m):
+        return []
+
+    def enumerate(self):
+        for kind in ('plain', 'transformable'):
+            for outcome in ('result', 'exception'):
+                for send_resp in (True, False):
+                    for cast in (False, True):
+                        yield {'future': kind, 'outcome': outcome, 'send_resp': send_resp, 'cast': cast}
+
+    def run(self, inp):
+        from tornado import concurrent
+        from circus.util import TransformableFuture
+        c = real_controller()
+        up = concurrent.Future()
+        if inp['outcome'] == 'result':
+            up.set_result({'numprocesses': 3})
+        else:
+            up.set_exception(RuntimeError('operation failed'))
+        fut = up
+        if inp['future'] == 'transformable':
+            fut = TransformableFuture()
+            fut.set_upstream_future(up)
+            fut.set_transform_function(lambda x: {'numprocesses': x})
+            fut._internal_callback(up)
+        obs = {}
+        try:
+            c._dispatch_callback_future(b'msg', b'CID', 11, inp['cast'], 'incr', inp['send_resp'], fut)
+        except BaseException as e:
+            obs['raised'] = type(e).__name__
+        if up.exception() is not None:
+            pass
+        frames = c.stream.frames
+        obs['replies'] = [json.loads(frames[i + 1]) for i in range(0, len(frames) - 1, 2)]
+        return obs
+
+    def check(self, inp, obs):
+        bad = set()
+        if 'raised' in obs:
+            bad.add('noescape')
+        n = len(obs['replies'])
+        if not inp['send_resp'] or inp['cast']:
+            if n:
+                bad.add('post[0]')
+        else:
+            if n != 1 or obs['replies'][0].get('id') != 11:
+                bad.add('post[1]')
         return bad
